@@ -39,7 +39,7 @@ BOUNDS = {"quick": "datasets with 2 chunks stored + 1 operation (store_chunk, st
                    "close); every call site x {ENOSPC, EACCES, EIO, ENOENT}; file layouts flat/deep x gzip on/off; sharded (1,1,0); "
                    "interruption before every call of a chunk write (raw and compressed_segmentation, gzip on/off, overwrite of an "
                    "existing chunk) and of Shard.close, every surviving prefix length",
-          "thorough": "more layouts, 2-chunk sharded closes"}
+          "thorough": "more layouts and errnos (EDQUOT, EROFS, EMFILE, ENAMETOOLONG, ENOTDIR, EFBIG); sharded faults under 3 more sharding specs x both writers; interrupted sharded close under 5 sharding specs x {in memory, on disk}; HTTP request faults on the C14 thorough grid"}
 OUTSIDE = ["real kernel behaviour (partial write(2), fsync ordering, torn sectors beyond prefix truncation)", "JPEG",
            "HTTP faults other than one / all later requests answered 404, 403, 500, 503 or a reset connection"]
 
